@@ -106,3 +106,27 @@ theorem nodup_filterMap {α β : Type} {f : α → Option β} {l : List α}
   exact hne (h a a' b hb hb')
 
 end Prs
+
+namespace Prs
+theorem nodup_flatMap {α β : Type} {l : List α} {f : α → List β}
+    (h1 : ∀ a ∈ l, (f a).Nodup)
+    (h2 : l.Pairwise (fun a b => ∀ x ∈ f a, x ∉ f b)) : (l.flatMap f).Nodup := by
+  induction l with
+  | nil => simp
+  | cons a l ih =>
+    rw [List.pairwise_cons] at h2
+    simp only [List.flatMap_cons]
+    rw [List.nodup_append]
+    refine ⟨h1 a (by simp), ih (fun b hb => h1 b (by simp [hb])) h2.2, ?_⟩
+    intro x hx y hy hxy
+    subst hxy
+    simp only [List.mem_flatMap] at hy
+    obtain ⟨b, hb, hxb⟩ := hy
+    exact h2.1 b hb x hx hxb
+
+theorem zipIdx_pairwise_snd {γ : Type} (xs : List γ) :
+    xs.zipIdx.Pairwise (fun a b => a.2 ≠ b.2) := by
+  have h : (xs.zipIdx.map (·.2)).Nodup := by
+    rw [List.zipIdx_map_snd]; exact List.nodup_range' (step := 1)
+  exact (List.pairwise_map.1 h)
+end Prs
